@@ -114,7 +114,8 @@ def child_case(case):
         got = [(oracles.tname(tt), v) for tt, v in lexer.tokenize('select 1 from foo')]
         if got != REF_PROBE:
             res['later'] = f'tokens {got!r:.120}'
-        elif PROBE_REF[0] is not None:
+        elif PROBE_REF[0] is not None and (res['outcome'] != 'result' or (d + H) % 4 == 0):
+            # the whole probe suite after every call that was cut short, and after every fourth completed one
             from checks import c20
             res['later'] = c20.probe_diff(PROBE_REF[0])
     except BaseException as e:  # noqa
